@@ -928,6 +928,49 @@ func (c *FnCtx) instrReturn(x *ssa.Return) {
 	env.heap = c.cur
 	env.old = c.entry
 	ord := c.returnOrdinal(x)
+	// return-site clauses may name local variables (their value at this return)
+	retBlock := c.curBlock
+	entryResolve := env.resolve
+	env.resolve = func(name string) (sv, bool) {
+		if v, ok := entryResolve(name); ok {
+			return v, true
+		}
+		if v, ok := c.lastDefIn(name, retBlock); ok {
+			return v, true
+		}
+		return c.valueAt(name, retBlock, nil)
+	}
+	// "return N use L(args)": a proved lemma applied at this return (only lemma applications are
+	// accepted, so nothing unproved is assumed)
+	for _, cl := range c.con.Clauses {
+		if cl.Kind != "use" || (cl.Ret != 0 && cl.Ret != ord) {
+			continue
+		}
+		call, ok := cl.E.(*ECall)
+		isLemma := false
+		if ok {
+			for _, lem := range c.eng.specs.Lemmas {
+				if lem.Name == call.Fun {
+					isLemma = true
+				}
+			}
+			for _, ax := range c.eng.specs.Axioms {
+				if ax.Name == call.Fun {
+					isLemma = true // an instance of an assumed axiom
+				}
+			}
+		}
+		if !isLemma {
+			c.attachErr = fmt.Sprintf("line %d: use needs a lemma application", cl.Line)
+			return
+		}
+		t, err := env.evalBool(cl.E)
+		if err != nil {
+			c.attachErr = fmt.Sprintf("line %d: %v", cl.Line, err)
+			return
+		}
+		c.assumeAt(c.guard(), t)
+	}
 	for _, cl := range c.con.Clauses {
 		if cl.Kind != "ensures" {
 			continue
